@@ -295,6 +295,23 @@ func checkC18(c *Ctx, r *Report) {
 			r.ok("R18.5", fnID(disp), fmt.Sprintf("all %d index/slice/assert obligations of ParseTCPRequest hold for every frame the classifier accepts (len = 6 + length field)", len(an.obligs)), c.pos(disp.Pos()), true)
 		}
 	}
+	// R18.8: the verdict for a prefix of 8 or more bytes is the verdict for the whole buffer
+	classifierPrefixOnly(c, r, "R18.8")
+	r.floor("R18.8", 1)
+	// R18.7: the classifier accepts a frame only with protocol id 0, so every TCP request encoder
+	// must emit 0 there whatever the (exported, caller-writable) struct fields hold
+	{
+		reqs := requestTypes(c, "packet")
+		for _, m := range bytesMethods(c, "packet") {
+			tn := m.Signature.Recv().Type().(*types.Named)
+			if reqs[tn] && hasMBAP(tn) {
+				r.instance("R18.7", 1)
+				r.funcs[fnID(m)] = true
+				c01ConstProtocol(c, r, "R18.7", m)
+			}
+		}
+		r.floor("R18.7", 10)
+	}
 	// R18.6: what the dispatcher rejects encodes to an exception addressed to the frame (C16 R16.2)
 	{
 		tmp := newReport(r.Prop, r.Tier)
